@@ -19,7 +19,10 @@ RULE = ("mutation-XSS shaped soup (raw-text elements, foreign content, integrati
         "oracle: allow-lists hold on the re-parsed tree, no comments, no disallowed scheme; non-trivial = input contains a "
         "disallowed element or attribute")
 
-XSS_BITS = ["<script>alert(1)</script>", "<style>*{x:expression(1)}</style>", "<noscript><p title=\"</noscript><img src=x onerror=alert(1)>\">",
+XSS_BITS = ["<p><b title=\"</textarea><img src=x onerror=alert(1)>\"></p><textarea>x", "<svg></p><title><a title=\"</title><img src=x onerror=alert(1)>\">",
+            "<svg></br><title><a title=\"</title><img src=x onerror=alert(1)>\">", "<math></p><style><a title=\"</style><img src=x onerror=alert(1)>\">",
+            "<svg><foreignObject><p>x</p></foreignObject><title><a title=\"</title><img src=x onerror=alert(1)>\"></a></title></svg>",
+            "<i title=\"</title><script>alert(1)</script>\"><title>t", "<script>alert(1)</script>", "<style>*{x:expression(1)}</style>", "<noscript><p title=\"</noscript><img src=x onerror=alert(1)>\">",
             "<svg><style><img src=x onerror=alert(1)></style></svg>", "<math><mtext><table><mglyph><style><img src=x onerror=alert(1)>",
             "<svg><title><a href=\"javascript:alert(1)\">x</a></title></svg>", "<a href=\"jav&#x09;ascript:alert(1)\">x</a>",
             "<a href=\" javascript:alert(1)\">y</a>", "<a href=\"JaVaScRiPt:alert(1)\">z</a>", "<img src=x onerror=alert(1)>",
@@ -99,6 +102,44 @@ def wrapper_lost(orig, name, ns_word, S):
     return False
 
 
+INTEGRATION = {(gen.SVG_NS, "foreignObject"), (gen.SVG_NS, "desc"), (gen.SVG_NS, "title"), (gen.MATHML_NS, "annotation-xml"),
+               (gen.MATHML_NS, "mi"), (gen.MATHML_NS, "mo"), (gen.MATHML_NS, "mn"), (gen.MATHML_NS, "ms"), (gen.MATHML_NS, "mtext")}
+
+
+def _split(tag):
+    return trees.split_tag(tag) if isinstance(tag, str) else (None, None)
+
+
+def without_mechanism(root, which, S):
+    """a deep copy of the parsed (etree, full) tree with the recorded mechanism removed:
+    A `rcdata-child`: element children of an HTML textarea/title are dropped (their text too);
+    B `html-in-foreign`: an HTML-namespace element whose nearest ancestor that the sanitizer lets through is an SVG/MathML element that
+    is not an integration point is dropped (a disallowed integration point in between is escaped to text and shields nothing).
+    Returns (copy, number of removals)."""
+    import copy
+    r = copy.deepcopy(root)
+    n = 0
+    top = r.getroot() if hasattr(r, "getroot") else r
+    todo = [(top, None)]          # element, (ns, name) of its nearest ancestor-or-self that the sanitizer lets through
+    while todo:
+        el, anc = todo.pop()
+        ns, nm = _split(el.tag)
+        here = (ns, nm) if (ns, nm) in S.allowed_elements else anc
+        for ch in list(el):
+            cns, cnm = _split(ch.tag)
+            drop = False
+            if which == "A" and ns == gen.HTML_NS and nm in ("textarea", "title") and cnm is not None:
+                drop = True
+            if which == "B" and cns == gen.HTML_NS and here is not None and here[0] in (gen.SVG_NS, gen.MATHML_NS) and here not in INTEGRATION:
+                drop = True
+            if drop:
+                el.remove(ch)
+                n += 1
+            else:
+                todo.append((ch, here))
+    return r, n
+
+
 def one(ctx, text, opts, src):
     import html5lib
     from html5lib.filters import sanitizer as S
@@ -114,7 +155,9 @@ def one(ctx, text, opts, src):
     ctx.case("resanitize", "%s|%s" % (text, sorted(opts.items())), nontrivial=("<" in text),
              sample={"input": text[:100], "sanitized": out[:100]})
     ctx.count(src)
-    for container in (None, "div", "select", "table", "td", "svg", "math", "p", "a", "template", "noscript", "title", "textarea", "xmp"):
+    # contexts in which markup is read as markup; RCDATA / raw-text containers (title, textarea, xmp) are not re-parse contexts
+    # of the property: there ANY attribute value containing the container's end tag turns into markup, whatever was sanitized
+    for container in (None, "div", "select", "table", "td", "svg", "math", "p", "a", "template", "noscript"):
         for scripting in (False, True):
             try:
                 p = html5lib.HTMLParser(tree=html5lib.getTreeBuilder("etree", fullTree=True))
@@ -132,8 +175,43 @@ def one(ctx, text, opts, src):
                 _, ns_o, name_o = why.split(":", 2)
                 why = "element-reparsed-in-another-namespace" if wrapper_lost(trees.from_etree(t), name_o, ns_o, S) \
                     else "element:%s" % name_o
+            if why and why != "element-reparsed-in-another-namespace":
+                # two recorded mechanisms, each accepted only by COUNTERFACTUAL: the same pipeline on the same tree minus the
+                # mechanism is safe in this re-parse mode
+                for which, label in (("A", "markup-written-inside-rcdata-element"), ("B", "html-element-inside-foreign-breaks-out-on-reparse"),
+                                     ("AB", "markup-written-inside-rcdata-element+html-element-inside-foreign-breaks-out-on-reparse")):
+                    if which == "AB":
+                        t2, n1 = without_mechanism(t, "A", S)
+                        t2, n2 = without_mechanism(t2, "B", S)
+                        nrem = n1 and n2
+                    else:
+                        t2, nrem = without_mechanism(t, which, S)
+                    if not nrem:
+                        continue
+                    try:
+                        out2 = HTMLSerializer(sanitize=True, **opts).render(html5lib.getTreeWalker("etree")(t2))
+                        p2 = html5lib.HTMLParser(tree=html5lib.getTreeBuilder("etree", fullTree=True))
+                        r2 = p2.parse(out2, scripting=scripting) if container is None else p2.parseFragment(out2, container=container, scripting=scripting)
+                        w2 = unsafe_reason(trees.from_etree(r2), S, container is None)
+                        if w2 is None:
+                            why = label
+                            break
+                        if w2.startswith("element-reparsed-in-another-namespace:"):
+                            _, ns_o2, name_o2 = w2.split(":", 2)
+                            if wrapper_lost(trees.from_etree(t2), name_o2, ns_o2, S):
+                                why = label + "+element-reparsed-in-another-namespace"
+                                break
+                    except Exception:
+                        pass
+            if why and "+" in why:
+                # both recorded mechanisms are needed to explain the input: one failure per (known) component class
+                for part in why.split("+"):
+                    ctx.fail("unsafe-after-reparse:%s" % part, "re-parsed sanitized markup violates the allow-lists",
+                             {"input": text[:500], "options": opts, "sanitized": out[:500], "container": container, "scripting": scripting})
+                return
             if why:
-                ctx.fail("unsafe-after-reparse:%s" % why if why == "element-reparsed-in-another-namespace" else
+                ctx.fail("unsafe-after-reparse:%s" % why if why in ("element-reparsed-in-another-namespace", "markup-written-inside-rcdata-element",
+                                                                 "html-element-inside-foreign-breaks-out-on-reparse") else
                          "unsafe-after-reparse:%s:%s" % (why, "document" if container is None else "fragment-in-" + container),
                          "re-parsed sanitized markup violates the allow-lists",
                          {"input": text[:500], "options": opts, "sanitized": out[:500], "container": container, "scripting": scripting})
